@@ -396,3 +396,20 @@ def plainWalkData (kc : Nat → Nat) (n : Nat) (d : List Nat) (steps : List Nat)
   steps.foldl (fun d lvl => resizeWords d (n * kc lvl)) d
 
 end HC
+
+namespace HC
+
+/-! ### CKKS scale agreement (`util::are_close_f64`, the predicate behind `are_same_scale` / `match_scale` of add, sub, add_plain, sub_plain) -/
+
+/-- `are_close_f64(v1, v2)` on exact values `v_i = m_i · 2^(e_i)` (positive finite doubles are such dyadic numbers):
+    `|v1 − v2| < 2^-52 · max(v1, v2, 1)`, evaluated in integers after scaling by a common power of two (`closeInts a b one`: a, b the scaled values, `one` the scaled 1).
+    TRUSTED reading of the float code `(value1 - value2).abs() < f64::EPSILON * value1.max(value2).max(1.0)`: the product on the right is exact
+    (a power of two times a double), and the difference on the left is exact whenever the operands are within a factor two of each other
+    (Sterbenz) — otherwise both the rounded and the exact difference exceed half the larger operand and the verdict is `false` either way. -/
+def closeInts (a b one : Int) : Bool := decide (((a - b).natAbs : Int) * 4503599627370496 < max (max a b) one)   -- 2^52
+
+def areCloseDy (m1 e1 m2 e2 : Int) : Bool :=
+  let e := min (min e1 e2) 0
+  closeInts (m1 * 2 ^ (e1 - e).toNat) (m2 * 2 ^ (e2 - e).toNat) (2 ^ (-e).toNat)
+
+end HC
